@@ -107,6 +107,22 @@ fn fast_gnp_random_graph_undirected(
     }
 }
 
+/// Same as `fast_gnp_random_graph` but with a caller-supplied random source.
+/// Only compiled with the `verif_hooks` feature.
+#[cfg(feature = "verif_hooks")]
+pub fn fast_gnp_random_graph_with_rng(
+    num_nodes: i32,
+    edge_probability: f64,
+    directed: bool,
+    rng: Box<dyn RngCore>,
+) -> Result<Graph<i32, ()>, Error> {
+    let mut rng = rng;
+    match directed {
+        true => fast_gnp_random_graph_directed(num_nodes, edge_probability, &mut rng),
+        false => fast_gnp_random_graph_undirected(num_nodes, edge_probability, &mut rng),
+    }
+}
+
 fn get_random_number_generator(seed: Option<u64>) -> Box<dyn RngCore> {
     match seed {
         None => Box::new(rand::thread_rng()),
